@@ -130,6 +130,8 @@ def semaphores_only_through_executor(ctx):
     ctx.ob(f, 'acquire returns the tag\'s next sequence number', ok, 'the token must be the per-tag sequence number read before it is advanced')
     incs = [x for x in own_nodes(f.node) if isinstance(x, ast.AugAssign) and norm(x.target) == 'self._tag_sequences[tag]' and isinstance(x.op, ast.Add) and norm(x.value) == '1']
     decs = [x for x in own_nodes(f.node) if isinstance(x, ast.AugAssign) and norm(x.target) == 'self._count' and isinstance(x.op, ast.Sub) and norm(x.value) == '1']
-    ctx.ob(f, 'one sequence advance and one count decrement per acquire', len(incs) == 1 and len(decs) == 1 and not q.guards(incs[0]) and not q.in_loop(incs[0])
-           and not q.in_loop(decs[0]) and (not q.guards(decs[0])),
+    g = ctx.cfg(f)
+    once = len(incs) == 1 and len(decs) == 1 and not q.in_loop(incs[0]) and not q.in_loop(decs[0]) \
+        and g.must_pass([g.entry], g.nodes_of(incs[0]), [g.exit], g.NORMAL) and g.must_pass([g.entry], g.nodes_of(decs[0]), [g.exit], g.NORMAL)
+    ctx.ob(f, 'one sequence advance and one count decrement per acquire', once,
            'each acquire must take exactly one unit and issue exactly one token')
